@@ -251,6 +251,14 @@ func (c *CoAComponent) readLoop() {
 			continue
 		}
 
+		// Octets beyond the declared length are padding (RFC 2865 section 3).
+		raw = raw[:binary.BigEndian.Uint16(raw[2:4])]
+
+		if !validateRequestAuthenticator(raw, client.secret) {
+			c.stats.IncrInvalidAuth(client.key)
+			continue
+		}
+
 		if !validateMessageAuthenticator(raw, client.secret) {
 			c.stats.IncrInvalidAuth(client.key)
 			continue
@@ -585,26 +593,46 @@ func hasNonIdentificationAttrs(packet *radius.Packet) bool {
 	return false
 }
 
+// validateRequestAuthenticator checks the Request Authenticator of a
+// CoA-Request or Disconnect-Request (RFC 5176 section 2.3, computed as for
+// Accounting-Request in RFC 2866 section 3):
+// MD5(Code + Identifier + Length + 16 zero octets + Attributes + Secret).
+// Without it a request that carries no Message-Authenticator is not
+// authenticated at all.
+func validateRequestAuthenticator(raw []byte, secret []byte) bool {
+	if len(raw) < 20 {
+		return false
+	}
+	var zero [16]byte
+	h := md5.New()
+	h.Write(raw[:4])
+	h.Write(zero[:])
+	h.Write(raw[20:])
+	h.Write(secret)
+	return hmac.Equal(h.Sum(nil), raw[4:20])
+}
+
+// validateMessageAuthenticator checks the Message-Authenticator of a
+// CoA-Request or Disconnect-Request, when present. Per RFC 5176 section 3
+// the HMAC-MD5 is computed over the packet with both the Request
+// Authenticator field and the attribute value taken as sixteen zero octets.
 func validateMessageAuthenticator(raw []byte, secret []byte) bool {
 	offset := findAttr80(raw)
 	if offset < 0 {
 		return true
 	}
 
-	saved := make([]byte, 16)
-	copy(saved, raw[offset:offset+16])
-
+	tmp := make([]byte, len(raw))
+	copy(tmp, raw)
 	for i := 0; i < 16; i++ {
-		raw[offset+i] = 0
+		tmp[4+i] = 0
+		tmp[offset+i] = 0
 	}
 
 	h := hmac.New(md5.New, secret)
-	h.Write(raw)
-	computed := h.Sum(nil)
+	h.Write(tmp)
 
-	copy(raw[offset:offset+16], saved)
-
-	return hmac.Equal(saved, computed)
+	return hmac.Equal(raw[offset:offset+16], h.Sum(nil))
 }
 
 func (c *CoAComponent) sendResponse(dst *net.UDPAddr, secret []byte, request *radius.Packet, code radius.Code, errorCause int, requestRaw []byte) {
@@ -634,14 +662,11 @@ func (c *CoAComponent) sendResponse(dst *net.UDPAddr, secret []byte, request *ra
 		return
 	}
 
-	// Response Authenticator: MD5(Code+ID+Length+RequestAuth+Attributes+Secret)
 	copy(encoded[4:20], requestRaw[4:20])
-	rh := md5.New()
-	rh.Write(encoded)
-	rh.Write(secret)
-	copy(encoded[4:20], rh.Sum(nil))
 
-	// Message-Authenticator: HMAC-MD5(packet with ResponseAuth set and MA zeroed, Secret)
+	// Message-Authenticator first: HMAC-MD5(packet with the Request
+	// Authenticator in the authenticator field and MA zeroed, Secret)
+	// (RFC 5176 section 3 / RFC 3579 section 3.2).
 	if requestHasMA {
 		if maOffset := findAttr80(encoded); maOffset >= 0 {
 			for i := 0; i < 16; i++ {
@@ -652,6 +677,13 @@ func (c *CoAComponent) sendResponse(dst *net.UDPAddr, secret []byte, request *ra
 			copy(encoded[maOffset:maOffset+16], mac.Sum(nil))
 		}
 	}
+
+	// Response Authenticator last, over the finished attributes:
+	// MD5(Code+ID+Length+RequestAuth+Attributes+Secret)
+	rh := md5.New()
+	rh.Write(encoded)
+	rh.Write(secret)
+	copy(encoded[4:20], rh.Sum(nil))
 
 	c.conn.WriteToUDP(encoded, dst)
 }
